@@ -32,6 +32,15 @@ thread_local! {
 
 static HOOK: Once = Once::new();
 pub static POINTS_HIT: AtomicU64 = AtomicU64::new(0);
+/// sanitizer / Miri mode: small rounds
+pub static SMALL: AtomicBool = AtomicBool::new(false);
+pub static T_BLOCK_MS: AtomicU64 = AtomicU64::new(12);
+pub fn t_block() -> Duration {
+    Duration::from_millis(T_BLOCK_MS.load(AO::Relaxed))
+}
+pub fn small() -> bool {
+    SMALL.load(AO::Relaxed)
+}
 
 pub fn install_hook() {
     HOOK.call_once(|| {
